@@ -194,6 +194,10 @@ def run(ctx):
         "that call WriteControl without deadline); the peer's frames are well-formed; the application pauses only between two "
         "calls on its open message (after NextWriter, after a Write)",
         "the transport's Write is atomic (one call = one contiguous byte range) and fails once Conn.Close closed it",
+        "how many transport writes a frame takes is the library's choice (data frame: header+buffer and the caller's slice; control "
+        "frame: 1..k adjacent writes, the first holding the frame header): read from the recorded execution, the generator predicts one "
+        "write per control frame and the scheduler lets the further parts follow at once; a transport close between the parts of any "
+        "frame leaves a truncated last frame, which is allowed for data and control frames alike",
         "lock hand-off among several waiters is the Go runtime's choice: TLC covers all orders in the model, the replay the ones "
         "the runtime produces (the generator predicts first-come-first-served; a wrong prediction only loses coverage)",
         "bounded waits (30 ms) decide only that a process did not arrive at its gate; the verdict comes from the recorded execution",
@@ -218,10 +222,12 @@ def run(ctx):
           ("MC_WsConc_split.cfg", "WholeFrames"), ("MC_WsConc_nolatch.cfg", "AfterClose"),
           ("MC_WsConc_timeout.cfg", None), ("MC_WsConc_timeoutrel.cfg", "WholeFrames"),
           ("MC_WsConc_timeoutrel_lock.cfg", "LockOK"),
-          ("MC_WsConc_reader.cfg", None), ("MC_WsConc_rdata.cfg", "MsgIntact")]
+          ("MC_WsConc_reader.cfg", None), ("MC_WsConc_rdata.cfg", "MsgIntact"),
+          # control frames that reach the transport in two adjacent writes; a foreign write between them
+          ("MC_WsConc_ctl2.cfg", None), ("MC_WsConc_ctl2_nolock.cfg", "WholeFrames")]
     if not quick:
         mc += [("MC_WsConc_twoclose.cfg", None), ("MC_WsConc_big.cfg", None), ("MC_WsConc_timeoutbig.cfg", None),
-               ("MC_WsConc_readerbig.cfg", None), ("MC_WsConc_reader2.cfg", None)]
+               ("MC_WsConc_readerbig.cfg", None), ("MC_WsConc_reader2.cfg", None), ("MC_WsConc_ctl2big.cfg", None)]
     fams = dict((f, n[0] if quick else n[1]) for f, n in FAMILIES.items())
     if not quick:
         fams.update(THOROUGH_ONLY)
